@@ -184,6 +184,30 @@ def Api.lock (a : Api) (v : Variant) (h k : Nat) (limit : Limit) (h0 : Nat) : Ap
     | none => (a1, ⟨tr, .bad⟩)
   | r => (a1, ⟨tr, r⟩)
 
+inductive ItemRes where
+  /-- the item obtained its lock and the entry has a value: the stream yields the guard -/
+  | yielded
+  /-- the item obtained its lock but the entry has no value: the guard is dropped, nothing is yielded -/
+  | valueless
+  /-- the key is held by somebody else: the item is (still) queued -/
+  | pending
+  | bad
+deriving DecidableEq, Repr
+
+/-- one poll of the future of a `lock_all_entries` item: `pending.lock().await`, then `guard.value().is_some()` -/
+def itemPoll (s : State) (w : Nat) : State × ItemRes :=
+  match s.hs w with
+  | some hd =>
+    let r := if hd.st = .replica then enqueue s w else acquire s w
+    match r.2 with
+    | .bool true =>
+      match (gop r.1 w .value).2 with
+      | .optVal (some _) => (r.1, .yielded)
+      | _ => (r.1, .valueless)
+    | .bool false => (r.1, .pending)
+    | _ => (r.1, .bad)
+  | none => (s, .bad)
+
 /-- poll the ready futures of a stream in queue order until one yields a guard with a value -/
 def Api.spollLoop (a : Api) (sid : Nat) : Nat → Api × Res
   | 0 => (a, .bad)
@@ -194,29 +218,18 @@ def Api.spollLoop (a : Api) (sid : Nat) : Nat → Api × Res
       match st.ready with
       | [] => (a, if st.items.isEmpty then .ended else .pending)
       | w :: rest =>
-        let setSt (a : Api) (st' : StreamSt) : Api :=
-          { a with streams := a.streams.map fun (i, x) => if i = sid then (i, st') else (i, x) }
-        let a0 := setSt a { st with ready := rest }
-        match a0.s.hs w with
-        | some hd =>
-          let (s1, o) := if hd.st = .replica then enqueue a0.s w else acquire a0.s w
-          let a1 := { a0 with s := s1 }
-          match o with
-          | .bool true =>
-            -- lock obtained: resolved either way
-            let a2 := match a1.streams.lookup sid with
-              | some st1 => setSt a1 { st1 with items := st1.items.erase w }
-              | none => a1
-            match (gop a2.s w .value).2 with
-            | .optVal (some _) => (a2, .item w hd.key)
-            | _ => Api.spollLoop (a2.dropGuard w).1 sid fuel
-          | .bool false =>
-            let a2 := match a1.streams.lookup sid with
-              | some st1 => setSt a1 { st1 with items := w :: st1.items.erase w }
-              | none => a1
-            Api.spollLoop a2 sid fuel
-          | o => (a1, .out o)
-        | none => (a0, .bad)
+        let setSt (a : Api) (f : StreamSt → StreamSt) : Api :=
+          { a with streams := a.streams.map fun (i, x) => if i = sid then (i, f x) else (i, x) }
+        let a0 := setSt a fun st => { st with ready := rest }
+        let k := keyOf a0.s w
+        let (s1, r) := itemPoll a0.s w
+        let a1 := { a0 with s := s1 }
+        match r with
+        | .yielded => (setSt a1 fun st => { st with items := st.items.erase w }, .item w k)
+        | .valueless =>
+          Api.spollLoop ((setSt a1 fun st => { st with items := st.items.erase w }).dropGuard w).1 sid fuel
+        | .pending => Api.spollLoop (setSt a1 fun st => { st with items := w :: st.items.erase w }) sid fuel
+        | .bad => (a1, .bad)
 
 def Api.exec (a : Api) (c : Call) : Api × Resp :=
   match c with
